@@ -90,6 +90,21 @@ Theorem c09_accept_extends_ruleset : forall F st n s',
 Proof. exact accept_ruleset_extends. Qed.
 Print Assumptions c09_accept_extends_ruleset.
 
+(** Panics need an inconsistent declaration state: if every function and global the typechecker
+    knows has a table ([fn_closed]), then no command that only USES declarations (rule, check, run,
+    push, pop, print-size, set / union / expression actions) reaches the `self.functions[name]`
+    panic. The initial state is closed; the rejected declaration of F2 breaks closedness. *)
+Theorem c09_no_panic_partial : forall F st c,
+  fn_closed F -> uses_only c = true -> snd (step (F, st) c) <> RPanic.
+Proof. exact no_panic_when_closed. Qed.
+Print Assumptions c09_no_panic_partial.
+
+Theorem c09_reject_breaks_closed_refuted :
+  fn_closed init_frame /\ exists s' e, step init (CFunction (U 10) [U 0] (U 0) (Some (ECall (U 14) [EVar (U 2); EVar (U 3)]))) = (s', RReject e)
+               /\ ~ fn_closed (fst s').
+Proof. exact (conj closed_init f2_breaks_closed). Qed.
+Print Assumptions c09_reject_breaks_closed_refuted.
+
 (** a run stops at the first panic and otherwise yields one result per command *)
 Theorem c09_run_total : forall cs s,
   length (snd (run s cs)) <= length cs /\
